@@ -247,6 +247,48 @@ def collect_histories(ctx, vh):
     notes["primitive_pair_histories"] = len(pairs)
     hists += pairs
 
+    # (3e) every material list shape: all sequences of 2..4 ranges over three materials (repeats, returns to an earlier
+    #      material, new material after a repeat ...) on a mesh with one triangle per range, split part by part
+    import itertools
+    matpat = []
+    k = 0
+    for n in (2, 3, 4):
+        for seq in itertools.product((1, 2, 3), repeat=n):
+            k += 1
+            if tier == "quick" and k % 3 != seed % 3:
+                continue
+            m = base_mesh(n, 1, "triangle", extra=True)
+            steps = [{"op": "New", "dst": 1, "src": [], "args": {"z": 0, "mesh": m}},
+                     {"op": "SetMaterials", "dst": 2, "src": [1], "args": {"z": 0, "mats": [{"n": 1, "m": x} for x in seq]}}]
+            for part in range(1, len(set(seq)) + 1):
+                steps.append({"op": "Split", "dst": 3, "src": [2], "args": {"z": 0, "k": part}})
+            steps.append({"op": "Export", "dst": 0, "src": [2], "args": {"z": 0, "fmt": "obj"}})
+            matpat.append({"nslots": 3, "tag": "matpattern", "steps": steps})
+    notes["material_pattern_histories"] = len(matpat)
+    hists += matpat
+
+    # (3f) magnitude ladder of the normal computations: the operation applied to the mesh scaled by 2^-e (exactly),
+    #      positions scaled back; normals do not depend on the size of a mesh, so the judge sees the same integers
+    def lattice_mesh(pos, idx):
+        return {"topo": "triangle", "idx": idx, "attrs": [{"ar": 3, "id": 1, "data": [[c * Q for c in p] for p in pos]}],
+                "mats": [], "exact": True, "bx": True, "fp": []}
+    pyramid = lattice_mesh([[0, 0, 0], [4, 0, 0], [4, 4, 0], [0, 4, 0], [2, 2, 3]],
+                           [0, 1, 4, 1, 2, 4, 2, 3, 4, 3, 0, 4, 0, 2, 1, 0, 3, 2])
+    sliver = lattice_mesh([[0, 0, 0], [1, 0, 0], [0, 1, 0], [0, 0, 1], [5, 1, 2]],
+                          [0, 1, 2, 0, 3, 1, 0, 2, 3, 1, 4, 2, 2, 4, 3])
+    ladder = []
+    es = [10, 40, -40] if tier == "quick" else [e for e in range(-100, 101, 10) if e != 0] + [9, 11, 19, 21]
+    for e in es:
+        for base in (pyramid, sliver):
+            ladder.append({"nslots": 4, "tag": "normladder", "steps": [
+                {"op": "New", "dst": 1, "src": [], "args": {"z": 0, "mesh": base}},
+                {"op": "SmoothNormals", "dst": 2, "src": [1], "args": {"z": 0, "e": e}},
+                {"op": "Unweld", "dst": 3, "src": [1], "args": {"z": 0}},
+                {"op": "FlatNormals", "dst": 4, "src": [3], "args": {"z": 0, "e": e}},
+                {"op": "SmoothNormals", "dst": 4, "src": [3], "args": {"z": 0, "e": e}}]})
+    notes["normals_magnitude_histories"] = len(ladder)
+    hists += ladder
+
     # (4) seeded large histories
     d = ctx.scratch("rnd")
     n = 60 if tier == "quick" else 800
